@@ -168,6 +168,18 @@ CHECKS = {
             "Trusts TLC/SANY, BigNat/F25519, RFC 9496 formulas as definition; square-root certificates are untrusted and verified.",
             "TLA+ transcription of RFC 9496: exhaustive TLC on toy curves + real-scale TLC trace validation of in-package recorded executions",
             "5/C11"),
+    "C19": ("exploration",
+            "Monitor specification: Robustness.tla is the API contract table (admissible length range per argument, failure signal, the two "
+            "documented panics, neutral receiver state after failure) for 43 byte-taking entry points across curve, scalar, ed25519 (single, "
+            "batch, expanded, cached), ecvrf, sr25519, x25519, h2c and merlin. The recorder calls each with every length 0..130 plus large "
+            "ones at every argument position (zero / random / truncated-valid contents), nil slices, bit-flipped valid tuples and the valid "
+            "tuple under recover(); TLC checks every recorded call (26k in quick) against the table. The exploration is the recorder's; the "
+            "specification contributes the precise contract. Both genuine defects found this way were repaired by fix: commits and the "
+            "check flags them again when the fixes are reverted.",
+            "Trusts TLC/SANY; coverage of 'every function that takes bytes' is the recorder's explicit list of entry points; contents are "
+            "sampled, lengths are exhaustive up to 130.",
+            "TLA+ contract table checked by TLC against recorded API calls over all input lengths",
+            "5/C19"),
 }
 
 NOT_YET = "check not built yet in this round (planned, see DESIGN.md section 11); not claimed until its machinery exists"
